@@ -47,6 +47,17 @@ empty @is_you(const byte[] c) {
 }""",
 }
 
+BIG_BYTES = """
+byte G[300];
+empty show(const byte[] v) { write(v); write('|'); writeln(v.length); }
+empty @is_you(int n) {
+    byte row[n]; for (int i = 0; i < n; i += 1) { row[i] = (97 + i % 26) is byte; }
+    writeln(row); writeln(row.length);
+    for (int i = 0; i < 300; i += 1) { G[i] = (97 + i % 26) is byte; }
+    writeln(G); writeln(G.length); show(row);
+}
+"""
+
 # writes that are later undone, or that precede defeat in a try: what is printed must be exactly the committed text
 UNDONE = """
 empty !maybe(int k) { write("in "); write(k); !truth_is_defeat(k > 1); write(" ok "); }
@@ -183,6 +194,9 @@ def items(tier):
             i += 1
     out.append((i, 'bytebool'))
     i += 1
+    for n in ((255, 256, 257, 300, 511, 512, 513, 1000) if tier == 'thorough' else (255, 256, 257, 300, 513)):
+        out.append((i, 'bigbytes', n))
+        i += 1
     out.append((i, 'undone'))
     i += 1
     for kind in STR_PROGS:
@@ -206,13 +220,13 @@ def _expect_ints(vals):
     return ''.join(f'{v} {v}\n' for v in vals).encode()
 
 
-def _run_expect(st, src, argv, W, exp, what, case, max_steps=30_000_000, n=1):
-    lines, err = compile_case(src, W, 64)
+def _run_expect(st, src, argv, W, exp, what, case, max_steps=30_000_000, n=1, S=64):
+    lines, err = compile_case(src, W, S)
     st.add('evaluations', n)
     if err:
         st.viol(f'{what}: not compiled: {err}', case)
         return
-    r, err = run_impl(src, argv, W, 64, lines=lines, max_steps=max_steps, mon=svm.Monitor(scope=False) if n < 200 else None)
+    r, err = run_impl(src, argv, W, S, lines=lines, max_steps=max_steps, mon=svm.Monitor(scope=False) if n < 200 else None)
     if err:
         st.viol(f'{what}: {err}', case)
         return
@@ -259,6 +273,14 @@ def run_item(item, tier):
             (b'true ' if i else b'false ') + (b'true\n' if i == 0 else b'false\n') for i in range(-2, 3))
         for W in (2, 3, 4):
             _run_expect(st, BYTE_BOOL, [], W, exp, f'write(byte)/write(bool) at W={W}', case, n=256)
+    elif kind == 'bigbytes':
+        n = item[2]
+        data = bytes(97 + k % 26 for k in range(n))
+        g300 = bytes(97 + k % 26 for k in range(300))
+        exp = data + b'\n' + str(n).encode() + b'\n' + g300 + b'\n300\n' + data + b'|' + str(n).encode() + b'\n'
+        for W in (2, 3):
+            _run_expect(st, BIG_BYTES, [str(n)], W, exp, f'write of byte arrays of {n} elements (stack array, global array, through a parameter) at W={W}', case, S=700)
+        st.sample({'write_byte_array_lengths': [n, 300]})
     elif kind == 'undone':
         from ..cases import run_program
         run_program(st, UNDONE, [[str(n), t] for n in (0, 1, 2, 3) for t in ('', 'x', 'text with spaces', 'é')], [2, 4], 'writes inside tries that are undone or stopped')
@@ -299,6 +321,7 @@ def coverage(total, tier):
         'write(int)': ('all 65536 values' if tier == 'thorough' else '10 windows of 32 values at the digit-count and sign boundaries')
                       + ' at W=2; +-10^k+-1, +-2^k+-1, min, max and a 509-step stride at W in 2,3,4,8',
         'write(byte), write(bool)': 'all 256 bytes; both booleans; bool derived from -2..2; W in 2,3,4',
+        'write(long byte arrays)': 'state byte arrays (stack, global, through a const parameter) of ' + ('255, 256, 257, 300, 511, 512, 513, 1000' if tier == 'thorough' else '255, 256, 257, 300, 513') + ' elements, W 2,3',
         'write(string / byte arrays)': 'every length 0..64 plus non-ASCII/control samples, from a string, a state argv array, a const '
                                         'argv array, a stack VLA and a const local, W in 2,4',
         'undone writes': 'every write overload inside try/undo and try/stop bodies that end in defeat, in a loop of tries through a defeat function, and before a preempt return; '
